@@ -3,6 +3,7 @@ from pyvc.runner import Prop, Bounded, script_replay
 import contracts.guesser_core as gc
 import contracts.guesser_expand as ge
 import contracts.guesser_loader as gld
+import contracts.omen_loader as oml
 
 M = gc.MOD + ':PcfgGrammar.'
 
@@ -10,12 +11,17 @@ PROP = Prop(
     'C04', 'A pre-terminal expands to exactly the product of its terminal groups',
     functions=[M + 'print_guess', M + '_recursive_guesses', M + 'omen_generate_guesses', M + 'create_guesses',
                # 'all values that share a group have the same probability in the ruleset': the loader groups only equal probabilities
-               (gld.GIO + ':_load_from_file', gld.install_reader)],
-    lemmas=lambda: ge.catvals_split.lemmas() + gld.groups_desc.lemmas(),
+               (gld.GIO + ':_load_from_file', gld.install_reader),
+               # 'a Markov pre-terminal expands to exactly the strings of its OMEN level': the model the generator works on is the one in the files
+               (oml.IO + ':_load_ngrams#ip', None), (oml.IO + ':_load_ngrams#cp', None), (oml.IO + ':_load_length', None)],
+    lemmas=lambda: ge.catvals_split.lemmas() + gld.groups_desc.lemmas() + oml.lemmas(),
     setup=ge.install,
     level='proof',
     replay=script_replay('replay/expand.py', default_fn='PcfgGrammar._recursive_guesses'),
-    bounded=[Bounded('C04.bounded.expand', 'replay/expand.py', args=['--fn', 'PcfgGrammar._recursive_guesses'],
+    bounded=[Bounded('C04.bounded.enum', 'replay/omen.py', args=['--fn', 'ENUM'],
+                     bound='250 random OMEN models quick / 1500 thorough, every level 0..24 in shuffled order with one shared cache',
+                     clause='the Markov clause of the statement on the real generator (same stand-in as C10.bounded.enum)'),
+             Bounded('C04.bounded.expand', 'replay/expand.py', args=['--fn', 'PcfgGrammar._recursive_guesses'],
                      bound='random small rulesets (groups of 1-3 values, masks of any U/L pattern, adjacent alpha words, non-ASCII values), every pre-terminal',
                      clause='cross-check on the real class: lines written == independent product enumeration, count == lines'),
              Bounded('C04.bounded.loader_groups', 'replay/loader.py', args=['--fn', '_load_from_file'],
